@@ -43,7 +43,7 @@ type c04Struct struct {
 }
 
 var awkward = []string{"\"", "\\", "\n", "\r", "\t", "\x00", "\x01", "\x07", "\x0b", "\x1b", "\x1f", "\x7f", "\u0080", "\u009b", " ", " ",
-	"\U0001f600", "\xff", "\xc3", "\xed\xa0\x80", "\x80", "é", "日本", " ", "=", "{", "}", "[", "]", ",", ":", "'", "`", "<", ">", "&", "%", "$", "~"}
+	"\U0001f600", "\U000e0001", "\U000f0000", "\U0010ffff", "\U0001d173", "\ufffd", "\u2028", "\u00a0", "\u3000", "\x0c", "\xff", "\xc3", "\xed\xa0\x80", "\x80", "é", "日本", " ", "=", "{", "}", "[", "]", ",", ":", "'", "`", "<", ">", "&", "%", "$", "~"}
 
 func (g *rng) text(maxLen int, plainOnly bool) string {
 	n := g.intn(maxLen + 1)
